@@ -5,8 +5,10 @@ SeedSequence identity) vs the Lean state machine's stream identities (Infretis.R
 mkPicked, setRgen), over straight histories and chains of restarts, 1..n-1 workers.
 Property predicates on the real identities: pairwise distinct, distinct from the scheduler's stream,
 equal to (seed, [ordinal, j]) / (seed, [ordinal, j, 0]).
-In-process draws of moves/engines are covered by the engine packages (C09/C16) which log the stream a
-draw was made on; here the scheduler side is decided.
+In-process draws: harness/props/c07_jobs.py runs the real select_shoot + real moves on the real picked dicts
+with real engine objects of every engine class and compares every job's trace of random-number requests
+(source stream + kind, in call order) with `Infretis.JobDraws.runJob` (driver op `jobdraws`), under a tripwire
+on numpy's global state, Python's `random`, os.urandom and fresh generators.
 """
 from __future__ import annotations
 
@@ -449,9 +451,12 @@ def engine_setup_real(ctx):
     import importlib.util  # noqa: F401
     import tomli
     import tomli_w
+    import numpy as np
     import infretis
     import infretis.core.tis as tis
+    import infretis.classes.repex as R
     from infretis.setup import setup_config, setup_internal
+    from props import c07_jobs as J
 
     root = Path(infretis.__file__).resolve().parent.parent
     example = root / "examples" / "turtlemd" / "double_well"
@@ -461,7 +466,11 @@ def engine_setup_real(ctx):
         return
     cwd0 = os.getcwd()
     saved_engines = tis.ENGINES
+    saved_rng = R.default_rng
     plans = [(1, ctx.rng.randrange(1, 50))] if ctx.quick else [(1, ctx.rng.randrange(1, 50)), (2, ctx.rng.randrange(1, 50))]
+    taps = contextlib.ExitStack()
+    taps.enter_context(J.GenTap())
+    taps.enter_context(J.Tripwire())
     for workers, seed in plans:
         tmp = tempfile.mkdtemp(prefix="c07eng2-", dir="/var/tmp")
         rep0 = {"engine_setup": "real-turtlemd", "workers": workers, "seed": seed,
@@ -480,6 +489,8 @@ def engine_setup_real(ctx):
             config["simulation"]["ensemble_engines"] = [["engine0"]] + [["engine"] for _ in range(n_ens - 1)]
             with open("infretis.toml", "wb") as fh:
                 tomli_w.dump(config, fh)
+            # every generator of the run is a tappable numpy Generator (spawn_rng builds children with type(rgen))
+            R.default_rng = lambda seed=None: J.TapGen(np.random.PCG64(seed))
             with contextlib.redirect_stdout(io.StringIO()):   # the TurtleMD engine prints a reminder
                 config = setup_config("infretis.toml")
                 md_items, state = setup_internal(config)
@@ -506,6 +517,12 @@ def engine_setup_real(ctx):
                 engs = {e: dict(job["picked"][e]["eng_idx"]) for e in ens_nums}
                 rep = dict(rep0, job=num, ensembles=ens_nums, engines={str(k): v for k, v in engs.items()})
                 own_eng = {id(p["rgen-eng"]) for p in job["picked"].values()}
+                jlog = J.JobLog()
+                for ens_num, pens in job["picked"].items():
+                    jlog.move_gens[id(pens["ens"]["rgen"])] = ens_num
+                    jlog.eng_gens[id(pens["rgen-eng"])] = ens_num
+                picked_before = dict(job["picked"])
+                J.LOG = jlog
                 try:
                     with contextlib.redirect_stdout(io.StringIO()):   # the TurtleMD engine prints a reminder
                         result = tis.run_md(job)
@@ -513,6 +530,11 @@ def engine_setup_real(ctx):
                     ctx.fail("C07:select_shoot:engine-without-job-stream",
                              f"job {num} (ensembles {ens_nums}, engines {engs}) failed: {e}", rep)
                     break
+                finally:
+                    J.LOG = None
+                # every random number of the real job (real moves, real TurtleMD engine) was drawn on its own streams
+                J.judge(ctx, jlog, picked_before, "real run_md", "turtlemd", None, dict(rep, job_draws="real-turtlemd"))
+                ctx.hit(f"c07_engine_setup_real:draws_per_job={min(len([i for i in jlog.items if i[0] == 'D']), 20)}")
                 ctx.count(1, c07_engine_setup_real="zero-swap" if len(ens_nums) == 2 else "single")
                 n_swaps += len(ens_nums) == 2
                 for ens_num, pens in job["picked"].items():
@@ -541,14 +563,18 @@ def engine_setup_real(ctx):
         finally:
             os.chdir(cwd0)
             tis.ENGINES = saved_engines
+            R.default_rng = saved_rng
+            J.LOG = None
             shutil.rmtree(tmp, ignore_errors=True)
+    taps.close()
 
 
 def run(ctx):
     rng = ctx.rng
     ctx.rule = ("every (move, engine) stream handed to a job in scheduler-shaped histories of the real REPEX_state: seeds "
                 "0..5, workers 1..ensembles-1, no restart / one / two restarts at random steps (with and without jobs in "
-                "flight); evaluations = streams examined; distinct = distinct (seed, stream identity)")
+                "flight); evaluations = streams examined (+ 1 per job run / engine call of the job tie); distinct = "
+                "distinct (seed, stream identity) resp. distinct (move, status, event list, engine kinds) of a job")
     plans = []
     for n_ens in (3, 4, 5):
         for w in range(1, n_ens):
@@ -594,21 +620,59 @@ def run(ctx):
     # the set-up of the engines of a job in select_shoot: which engine object gets which stream
     guarded(engine_setup_stub, ctx)
     guarded(engine_setup_real, ctx)
+    # the composed job: real select_shoot + real moves + real engine objects vs JobDraws.runJob (driver op jobdraws)
+    from props import c07_jobs
+    guarded(c07_jobs.run_jobs, ctx)
     ctx.assumptions += [
         "object history: one REPEX_state per segment lives through the whole segment; engine objects are used by "
         "successive jobs (stale generators) and compared with fresh engine objects; the model is functional, so "
         "this part is tie-only",
         "numpy: streams with different (entropy, spawn_key) are independent, equal ones identical (not modelled)",
         "identity of a stream = (SeedSequence.entropy, spawn_key) read from the generator objects inside md_items",
-        "draws made in-process by moves/engines on these streams are checked in C09/C16 (stream of every logged draw)",
+        "draws made in-process by moves/engines: every job of the job tie (c07_jobs) is judged draw by draw; the numbers "
+        "themselves (velocities, acceptance) are C09/C16's",
     ]
 
 
 def replay(ctx, obj):
     r = obj.get("replay", {})
+    if r.get("job_draws") and r.get("plan"):
+        from props import c07_jobs
+        rc = c07_jobs.replay_jobs(ctx, r)
+        for f in ctx.fails:
+            print("still fails:", f["signature"], f["what"])
+        return rc
     if not r.get("params"):
-        print("no history parameters in this replay file:", r)
-        return 1
+        # failures of the engine-side generators carry no history: re-run the generator that reported them
+        if obj.get("seed") is not None:
+            ctx.seed = obj["seed"]
+            ctx.rng = random.Random(f"{ctx.prop}:{ctx.seed}")
+        if "engine_setup" in r or r.get("job_draws") == "real-turtlemd":
+            engine_setup_stub(ctx)
+            engine_setup_real(ctx)
+        elif "engine" in r and "rgen_seed_job1" in r:
+            from props.c16 import run_c07_engine_streams
+            with contextlib.redirect_stdout(io.StringIO()):
+                run_c07_engine_streams(ctx)
+        elif "engine_call" in r:
+            import tempfile
+            from pathlib import Path
+            from props import c07_jobs
+            work = Path(tempfile.mkdtemp(prefix="c07jobs-", dir="/var/tmp"))
+            try:
+                with c07_jobs.GenTap(), c07_jobs.Tripwire():
+                    c07_jobs.engine_calls(ctx, work)
+            finally:
+                import shutil
+                shutil.rmtree(work, ignore_errors=True)
+        else:
+            print("no history parameters in this replay file:", r)
+            return 1
+        want = obj.get("signature")
+        still = [f for f in ctx.fails if want is None or f["signature"] == want]
+        for f in still:
+            print("still fails:", f["signature"], f["what"])
+        return 1 if (still or ctx.known_hits) else 0
     ctx.seed = r.get("ctxseed", ctx.seed)
     if r["params"][0] == "chain":
         _tag, n_ens, segments, steps, seed, wf = r["params"]
